@@ -5,13 +5,11 @@ From Coq Require Import ZArith QArith Qreals List Reals Lra Lia Bool.
 From Coquelicot Require Import Complex.
 From PyqspV Require Import Base.Ops Base.IntervalZ Base.TrigZ Model.LPolyM Model.LAlgM Model.QInst
   Model.ConvM Model.Checkers Theory.RingK Theory.LPolyT Theory.LAlgT Theory.IntervalT Theory.TrigT
-  Theory.RelT Theory.CplxT Theory.RespT Theory.ConvT Theory.QInstT.
+  Theory.RelT Theory.CplxT Theory.RespT Theory.ConvT Theory.QInstT Theory.QC.
 Import ListNotations.
 Open Scope R_scope.
 
-Definition q2c (q : Q) : C := RtoC (Q2R q).
 Definition csC (q : Q) : C * C := (RtoC (cos (Q2R q)), RtoC (sin (Q2R q))).
-Definition lpQ2C (p : lpoly Q) : lpoly C := LP (lp_dmin p) (map q2c (lp_coefs p)) (lp_isz p).
 
 Lemma cs_encl_rel phis : Forall2 (cs_rel rIC) (map cos_sin_encl phis) (map csC phis).
 Proof.
@@ -85,8 +83,9 @@ Proof.
     change (@ksub CR (RtoC (cos theta)) (@kmul CR Ci (RtoC (sin theta)))) with (Cminus (RtoC (cos theta)) (Cmult Ci (RtoC (sin theta)))).
     rewrite cis_split, cis_split_neg. reflexivity. }
   rewrite Eresp.
-  replace (Cminus (evx CR w wi (la_I gC)) (evx CR (cis theta) (cis (- theta)) (lpQ2C F))) with (evx CR w wi dC)
-    by (exact Esub).
+  change (Cminus (evx CR w wi (la_I gC)) (evx CR w wi (lpQ2C F)))
+    with (@ksub CR (evx CR w wi (la_I gC)) (evx CR w wi (lpQ2C F))).
+  match goal with |- Cmod ?x <= _ => replace x with (evx CR w wi dC) by (exact Esub) end.
   pose proof sc_pos as Hs.
   apply Rmult_le_reg_r with sc; [exact Hs|]. eapply Rle_trans; [exact Hb | exact H].
 Qed.
